@@ -19,12 +19,12 @@ CLAIMED = {
              "Reachability preservation by literal pruning (L-BYPASS) is proved in Lean (thorough tier) and validated by the bounded graph enumeration; greedy priorities are not under contract (T12: only used through dict.get(node, -1)).",
     ),
     "C02": dict(
-        technique='contract verification (z3) of Plan._call with symbolic argument counts, Plan._gather + nested recurse by structural induction, gather_* builtins, get_argument_nodes with loop invariants over a symbolic in-edge sequence, BoundCall.run / bound-call construction / process / run composition / unpack / edge keys; L-COUNT in Lean',
+        technique='contract verification (z3) of Plan._call with symbolic argument counts, Plan._gather + nested recurse by structural induction, gather_* builtins, get_argument_nodes with loop invariants over a symbolic in-edge sequence, BoundCall.run / bound-call construction / process / run composition / unpack / edge keys (equality and the hash law); L-COUNT in Lean; broken variants of the sequence contracts refuted with validated countermodels (stage R2)',
         text='Proved, unbounded: recurse(root) returns the very object when no node is inside and otherwise a node whose value is root with every node replaced by its value, same shape, exact built-in types only (structural induction, recursive calls cut by the hypothesis); _gather wraps a non-node in a literal holding the very object; Plan._call adds exactly the edges (gather(arg_i), c, Pos i), (gather(kwarg_j), c, Kw(name_j, j)) for ANY number of arguments, which is WF_args(c); get_argument_nodes returns args[i] = the predecessor on Pos(i) and the keyword pairs in index order for every in-edge sequence satisfying WF_args (two loop invariants, every list index proved in range); bound calls take exactly those slots, BoundCall.run passes slot values read at call time, literals are their own slot, run returns the output slot; schedule independence through C01/C04.',
         note='Assumed: argument structures are finite and acyclic; dict(pairs) keeps insertion order; the denotation val(call) = fn(values on its argument edges) is the composition of BoundCall.run, get_argument_nodes and C01 (stated, each part proved separately); WF_args is established by Plan._call and carried by the rewrite contract (same keys) - its preservation through pruning is by the prune contracts (whole nodes removed only outside the ancestors). L-COUNT (a bijection between the positional edges and [0,P) gives exactly P of them) is proved in Lean (thorough tier). A bounded round trip over argument trees of depth <= 2 incl. multi-step construction stays as a safety net and as native replay. validation.assert_can_bind and greedy are not under contract.',
     ),
     "C03": dict(
-        technique='layer 1: contracts on the real stale check, rewrite, pruning, run composition (z3); layer 2: SMT lemmas over those contracts (contracts/history.py: nearest-stored-ancestor form of Stale, inductive invariant J over every history step, fresh => from-scratch value, successful-run summary) by rank-induction steps and the invariant rule; bounded native probe over generated histories as validation',
+        technique='layer 1: contracts on the real stale check, rewrite, pruning, run composition (z3); layer 2: SMT lemmas over those contracts (contracts/history.py: nearest-stored-ancestor form of Stale, inductive invariant J over every history step, fresh => from-scratch value, successful-run summary) by rank-induction steps and the invariant rule; H-ATOMIC discharged for the bundled file stores by the contracts of C11 (dependency C03 -> C11); bounded native probe over generated histories as validation',
         text="Proved per function: process computes the declarative Stale / M spec for every node; _add_value_store performs exactly the specified whole-graph rewrite; plan_with_value_stores requires exactly the write nodes of the stale entries; prune_plan keeps the ancestors; run composes them. Proved as lemmas over these contracts, for graphs of any size: the invariant J ('a stored value is consistent with the current contents of its nearest stored ancestors whenever the modified times look consistent') holds initially and is preserved by every store write that takes effect (in any order, at any cut), source update, deletion and fresh_time change; J and not Stale(n) imply that n's stored value is the from-scratch value; after a successful run every stored value was computed from the final contents of its nearest stored ancestors and nothing is out of date.",
         note='The lemmas are first-order VCs with the induction hypothesis assumed (rank induction over the DAG, invariant rule over the history); the two rules themselves are proved in Lean (lemmas/Induction.lean), their instantiation with the step VCs is by hand. Hypotheses taken from other contracts and named in the evidence: H-ATOMIC (C09/C04/C01), H-TIME and H-DET (statement of C03), C11 atomic store writes. Dependent sources written by a side effect are outside the store view (scope limit). The bounded probe (histories <= 6 steps over plans <= 8 nodes) validates the whole argument natively and is never counted as proved.',
     ),
@@ -36,9 +36,9 @@ CLAIMED = {
              "that the run returns at all is liveness (not proved). Termination of all_ancestors is not proved.",
     ),
     "C05": dict(
-        technique='contract verification of the stale check against the declarative out-of-date spec (symbolic times, z3), of plan_with_value_stores (write set) and of _add_value_store (no write node for fresh entries); lemma H4 (after a successful run nothing is out of date) over the contracts',
-        text='Proved: stale_lookup[n] == Stale(n) with the strict comparison and the pure-source clause taken from the statement; required == {write(n) | n registered and stale}; a fresh stored node gets no write node and its argument consumers are re-pointed to the read node; lemma (z3, any graph size): after a successful run no stored node is out of date, so a repeated run rewrites nothing; a bounded stand-in (<= 3 predecessors) keeps deciding the per-node spec when the code is restructured.',
-        note="'each exactly once' and 'nothing else runs' use C04 and L-NEEDED (stated lemma, bounded probe). H4 assumes fresh_time is not in the future and pure sources (dependent sources: scope limit). The reads-at-most-once clause is checked by the bounded probe only.",
+        technique='contract verification of the stale check against the declarative out-of-date spec (symbolic times, z3), of plan_with_value_stores (write set) and of _add_value_store (no write node for fresh entries); lemma H4 (after a successful run nothing is out of date) over the contracts; safe_max proved for any number of values; L-NEEDED in Lean',
+        text='Proved: stale_lookup[n] == Stale(n) with the strict comparison and the pure-source clause taken from the statement; required == {write(n) | n registered and stale}; a fresh stored node gets no write node and its argument consumers are re-pointed to the read node; lemma (z3, any graph size): after a successful run no stored node is out of date, so a repeated run rewrites nothing; safe_max (newest of the values present, None when there is none) proved on the real function for a symbolic-length sequence in both calling conventions; a bounded stand-in (<= 3 predecessors) keeps deciding the per-node spec when the code is restructured.',
+        note="'each exactly once' and 'nothing else runs' use C04 and L-NEEDED (Lean, lemmas/Needed.lean: a read node that survives pruning and is not the output has a surviving argument consumer). 'Read at most once' is 'one read node per registered node' (rewrite postcondition) plus C04; composing these facts is by hand, the bounded probe (store times before / around / after the wall clock) validates it. H4 assumes fresh_time is not in the future and pure sources (dependent sources: scope limit).",
     ),
     "C06": dict(
         technique="engine invariant (completed and failed disjoint, put requires all predecessors completed), failure-lock invariant G5, concrete identity checks of NodeError / CallError objects on every path",
@@ -114,7 +114,7 @@ CLAIMED = {
     ),
     "C19": dict(
         technique="complete enumeration of frame chains for get_stack_frame / render_symbolic_traceback (frames beyond the depth limit are never inspected), AST obligations on the call sites, rewrite postcondition for inherited frames",
-        text="Proved: get_stack_frame returns the frames from the caller's caller outward, at most MAX_TRACEBACK_DEPTH + 1, with the truncation marker iff more exist, and depends on the current chain only; "
+        text="Proved: get_stack_frame returns the frames from the caller's caller outward, at most MAX_TRACEBACK_DEPTH + 1, with the truncation marker iff more exist, and depends on the current chain only - also when called again on the same live frames after their lines advanced; "
              "rendering lists them outermost first; call / gather / unpack / add / source capture the frame in their own undecorated body with the default depth; read / write nodes inherit the registry entry's frame; "
              "CallError.call and __cause__ are the failed node and its exception.",
         note="Known finding F4: CallError cannot be built for a registered Literal (AttributeError). T11: a plain def adds exactly one frame. A bounded native probe (every kind of creating line at three stack depths) stands in when the plan-construction contracts do not apply to restructured code.",
